@@ -222,12 +222,14 @@ class GroupValidator:
                     error_code = ValidationErrors.HED_TAG_REPEATED_GROUP
                     found_group = child
                     base_steps_up = 0
-                    while isinstance(found_group, list):
+                    while isinstance(found_group, list) and found_group:
                         found_group = found_group[0]
                         base_steps_up += 1
-                    for _ in range(base_steps_up):
-                        found_group = found_group._parent
-                    validation_issues += ErrorHandler.format_error(error_code, found_group)
+                    # Groups holding nothing but empty groups have no tag to report; they are reported as empty.
+                    if not isinstance(found_group, list):
+                        for _ in range(base_steps_up):
+                            found_group = found_group._parent
+                        validation_issues += ErrorHandler.format_error(error_code, found_group)
             if not isinstance(child, HedTag):
                 self._check_for_duplicate_groups_recursive(child, validation_issues)
             prev_child = child
